@@ -1,38 +1,89 @@
 //! Topology views (C19): drives des::net::topology::Topology through the public API on a
-//! simulation whose gate graph is wired by the script.
+//! simulation whose gate graph is wired by the script, before and between the queries.
 //!
-//! script:  p  nmod cnt_1 .. cnt_nmod   nch (len mode m0 g0 m1 g1 ..){nch}   query*
+//! script:  p  nmod cnt_1 .. cnt_nmod   nch (len mode m0 g0 m1 g1 ..){nch}   op*
 //!   p: position of the process-global ModuleId counter: ids are burnt (ModuleId::gen is public) until the
 //!   next one is p mod 2^16, then the simulation is built.  First output record: 10 nmod d z with d = the
 //!   module ids of the simulation are pairwise distinct, z = number of modules whose id is ModuleId::NULL.
 //!   modules m0.. (at most 24) get cnt_i gates g0.. (at most 40) in this order; every chain
 //!   g0 - g1 - .. - gh is wired by h connect calls (mode bit 0: last pair first, bit 1: swapped
 //!   orientation) provided it has at least one hop and all its gates exist, are distinct and unused.
-//!   query = 1 Globals::topology() | 2 r Topology::spanned(m_r) | 3 s dijkstra(m_s) | 4 connected | 5 bidirectional
-//!         | 6 mask filter_nodes(bit module-index) | 7 mask filter_edges(bit ((from node*8 + start gate pos) mod 62))
-//!         | 8 m edges_for(m_m) | 9 k m1..mk from_modules([..]) (unknown / repeated modules dropped)
+//!   op = 1 Globals::topology() | 2 r Topology::spanned(m_r) | 3 s dijkstra(m_s) | 4 connected | 5 bidirectional
+//!      | 6 mask filter_nodes(bit module-index) | 7 mask filter_edges(bit ((from node*8 + start gate pos) mod 62))
+//!      | 8 m edges_for(m_m) | 9 k m1..mk from_modules([..]) (unknown / repeated modules dropped)
+//!      | 10 len mode m0 g0 ..  connect a chain of existing gates now (same rule)                 -> 11 wired?
+//!      | 11 m via  a new gate on m_m (via 0: SimBuilder::gate while building, ModuleRef::create_gate at run time;
+//!                  via 1: `spawner().gate(name, 1)`), at most 60 gates per module                -> 12 position+1 | 12 0
+//!      | 12 m      the rest of the script runs at run time, inside at_sim_start of module m mod nmod: the global
+//!                  view comes from Topology::current() / des::net::globals(), modules from globals().get(..) -> 13 switched?
 //! output: view = 1 nn module{nn} ne (src sm sg em eg dst){ne} | dijkstra = 3 nn (0 | 1 src sm sg em eg dst){nn}
 //!   | 4 b | 5 b | edges_for = 6 ne (..){ne} | 7 (no such root) | 9 1 (dijkstra: unknown node)
 //! Node indices are positions in `nodes()`; an edge end is printed as the position of its node's module.
 use des::net::module::{ModuleId, ModuleRef};
 use des::net::topology::{Edge, Topology};
+use des::net::SimBuilder;
 use des::prelude::*;
 use implrun::Cur;
 use std::panic::{catch_unwind, AssertUnwindSafe};
-use std::sync::Arc;
+use std::sync::{Arc, Mutex};
 
 fn main() {
     implrun::run_main(run_line)
 }
 
-struct Fallback;
-impl Module for Fallback {}
-
-struct World {
-    ids: Vec<ModuleId>,
+enum Op {
+    Global,
+    Spanned(u64),
+    Dijkstra(u64),
+    Connected,
+    Bidirectional,
+    FilterNodes(u64),
+    FilterEdges(u64),
+    EdgesFor(u64),
+    FromModules(Vec<u64>),
+    Connect(Vec<u64>),
+    NewGate(u64, u64),
+    Runtime(u64),
 }
 
-impl World {
+struct State {
+    nm: usize,
+    ids: Vec<ModuleId>,
+    mods: Vec<ModuleRef>,
+    gates: Vec<Vec<GateRef>>,
+    used: Vec<Vec<bool>>,
+    topo: Topology<(), ()>,
+    ops: Vec<Op>,
+    next: usize,
+    rt: bool,
+    executor: usize,
+    late: usize,
+    out: Vec<u64>,
+}
+
+/// The module that executes the run-time part of the script in its at_sim_start.
+struct Node {
+    idx: usize,
+    st: Arc<Mutex<Option<State>>>,
+}
+
+impl Module for Node {
+    fn at_sim_start(&mut self, stage: usize) {
+        if stage != 0 {
+            return;
+        }
+        let mut guard = self.st.lock().unwrap();
+        if let Some(st) = guard.as_mut() {
+            if st.rt && st.executor == self.idx {
+                while st.next < st.ops.len() {
+                    exec(st, None);
+                }
+            }
+        }
+    }
+}
+
+impl State {
     fn midx(&self, m: &ModuleRef) -> u64 {
         self.ids.iter().position(|i| *i == m.id()).map_or(999, |p| p as u64)
     }
@@ -50,22 +101,231 @@ impl World {
         let (em, eg) = self.gate(&e.to.gate());
         out.extend([self.nidx(topo, &e.from.module()), sm, sg, em, eg, self.nidx(topo, &e.to.module())]);
     }
-    fn view(&self, topo: &Topology<(), ()>, out: &mut Vec<u64>) {
-        out.push(1);
-        out.push(topo.nodes().len() as u64);
-        for n in topo.nodes() {
+    fn view(&mut self) {
+        let mut out = vec![1, self.topo.nodes().len() as u64];
+        for n in self.topo.nodes() {
             out.push(self.midx(&n.module()));
         }
-        let edges: Vec<_> = topo.edges().collect();
+        let edges: Vec<_> = self.topo.edges().collect();
         out.push(edges.len() as u64);
         for e in &edges {
-            self.edge(topo, e, out);
+            self.edge(&self.topo, e, &mut out);
         }
+        self.out.extend(out);
+    }
+    /// a module handle: the one kept from the build phase, or, at run time, looked up in the globals
+    fn module(&self, m: usize) -> ModuleRef {
+        if self.rt {
+            des::net::globals().get(&format!("m{m}").as_str().into()).expect("module")
+        } else {
+            self.mods[m].clone()
+        }
+    }
+    /// wires g0 - g1 - .. - gh if the chain is valid for the current gate graph
+    fn connect_chain(&mut self, c: &[u64]) -> bool {
+        if c.is_empty() {
+            return false;
+        }
+        let mode = c[0];
+        let chain: Vec<(usize, usize)> = c[1..]
+            .chunks(2)
+            .filter(|p| p.len() == 2)
+            .map(|p| (p[0].min(255) as usize, p[1].min(255) as usize))
+            .collect();
+        let exists = |g: &(usize, usize)| g.0 < self.nm && g.1 < self.gates[g.0].len();
+        let distinct = (0..chain.len()).all(|i| (i + 1..chain.len()).all(|j| chain[i] != chain[j]));
+        if chain.len() < 2 || !distinct || !chain.iter().all(|g| exists(g) && !self.used[g.0][g.1]) {
+            return false;
+        }
+        for g in &chain {
+            self.used[g.0][g.1] = true;
+        }
+        let mut hops: Vec<usize> = (0..chain.len() - 1).collect();
+        if mode & 1 == 1 {
+            hops.reverse();
+        }
+        for i in hops {
+            let a = self.gates[chain[i].0][chain[i].1].clone();
+            let b = self.gates[chain[i + 1].0][chain[i + 1].1].clone();
+            if mode & 2 == 2 {
+                b.connect(a, None);
+            } else {
+                a.connect(b, None);
+            }
+        }
+        true
     }
 }
 
 fn bit(mask: u64, i: u64) -> bool {
     i < 64 && (mask >> i) & 1 == 1
+}
+
+/// executes the next operation; `sim` is the builder while the simulation is being built
+fn exec(st: &mut State, sim: Option<&mut SimBuilder<()>>) {
+    let i = st.next;
+    st.next += 1;
+    let nm = st.nm;
+    // ops are only read; take the one needed out of the borrow by matching on a reference to a clone-free view
+    let op = std::mem::replace(&mut st.ops[i], Op::Connected);
+    match &op {
+        Op::Global => {
+            st.topo = match sim {
+                Some(sim) => sim.globals().topology(),
+                None if i % 2 == 0 => Topology::current(),
+                None => des::net::globals().topology(),
+            };
+            st.view();
+        }
+        Op::Spanned(r) => {
+            let r = (*r).min(255) as usize;
+            if r < nm {
+                st.topo = Topology::spanned(st.module(r));
+                st.view();
+            } else {
+                st.out.push(7);
+            }
+        }
+        Op::Dijkstra(s) => {
+            let s = (*s).min(255);
+            let res = catch_unwind(AssertUnwindSafe(|| {
+                let dj = st.topo.dijkstra(format!("m{s}").as_str());
+                let mut v = vec![3, st.topo.nodes().len() as u64];
+                for n in st.topo.nodes() {
+                    match dj.get(&n.module().path()) {
+                        Some(e) => {
+                            v.push(1);
+                            st.edge(&st.topo, e, &mut v);
+                        }
+                        None => v.push(0),
+                    }
+                }
+                v
+            }));
+            match res {
+                Ok(v) => st.out.extend(v),
+                Err(_) => st.out.extend([9, 1]),
+            }
+        }
+        Op::Connected => {
+            let b = st.topo.connected();
+            st.out.extend([4, b as u64]);
+        }
+        Op::Bidirectional => {
+            let b = st.topo.bidirectional();
+            st.out.extend([5, b as u64]);
+        }
+        Op::FilterNodes(mask) => {
+            let mut topo = std::mem::take(&mut st.topo);
+            topo.filter_nodes(|n| bit(*mask, st.midx(&n.module())));
+            st.topo = topo;
+            st.view();
+        }
+        Op::FilterEdges(mask) => {
+            let mut topo = std::mem::take(&mut st.topo);
+            let snapshot = topo.clone();
+            topo.filter_edges(|e| {
+                let src = st.nidx(&snapshot, &e.from.module());
+                let (_, sg) = st.gate(&e.from.gate());
+                bit(*mask, (src * 8 + sg) % 62)
+            });
+            st.topo = topo;
+            st.view();
+        }
+        Op::EdgesFor(m) => {
+            let m = (*m).min(255);
+            let es: Vec<_> = st.topo.edges_for(format!("m{m}").as_str()).collect();
+            let mut v = vec![6, es.len() as u64];
+            for e in &es {
+                st.edge(&st.topo, e, &mut v);
+            }
+            st.out.extend(v);
+        }
+        Op::FromModules(ms) => {
+            let mut sel: Vec<usize> = Vec::new();
+            for m in ms {
+                let m = (*m).min(255) as usize;
+                if m < nm && !sel.contains(&m) {
+                    sel.push(m);
+                }
+            }
+            let list: Vec<ModuleRef> = sel.iter().map(|m| st.module(*m)).collect();
+            st.topo = Topology::from_modules(&list);
+            st.view();
+        }
+        Op::Connect(c) => {
+            let ok = st.connect_chain(c);
+            st.out.extend([11, ok as u64]);
+        }
+        Op::NewGate(m, via) => {
+            let m = (*m).min(255) as usize;
+            if m < nm && st.gates[m].len() < 60 {
+                let name = format!("late{}", st.late);
+                st.late += 1;
+                let path = format!("m{m}");
+                let g = if *via % 2 == 1 {
+                    let module = st.module(m);
+                    module.spawner().gate(&name, 1);
+                    module.gate(&name, 0).expect("spawned gate")
+                } else {
+                    match sim {
+                        Some(sim) => sim.gate(path.as_str(), &name),
+                        None => st.module(m).create_gate(&name),
+                    }
+                };
+                st.gates[m].push(g);
+                st.used[m].push(false);
+                st.out.extend([12, st.gates[m].len() as u64]);
+            } else {
+                st.out.extend([12, 0]);
+            }
+        }
+        Op::Runtime(m) => {
+            if st.rt || nm == 0 {
+                st.out.extend([13, 0]);
+            } else {
+                st.rt = true;
+                st.executor = (*m).min(255) as usize % nm;
+                st.out.extend([13, 1]);
+            }
+        }
+    }
+    st.ops[i] = op;
+}
+
+fn parse_ops(cur: &mut Cur) -> Vec<Op> {
+    let mut ops = Vec::new();
+    while !cur.done() {
+        let tag = cur.peek().unwrap();
+        let need = match tag {
+            1 | 4 | 5 | 9 | 10 => 1,
+            2 | 3 | 6 | 7 | 8 | 12 => 2,
+            11 => 3,
+            _ => break,
+        };
+        if cur.left() < need {
+            break;
+        }
+        cur.next();
+        ops.push(match tag {
+            1 => Op::Global,
+            2 => Op::Spanned(cur.next()),
+            3 => Op::Dijkstra(cur.next()),
+            4 => Op::Connected,
+            5 => Op::Bidirectional,
+            6 => Op::FilterNodes(cur.next()),
+            7 => Op::FilterEdges(cur.next()),
+            8 => Op::EdgesFor(cur.next()),
+            9 => Op::FromModules(cur.take_lp()),
+            10 => Op::Connect(cur.take_lp()),
+            11 => {
+                let m = cur.next();
+                Op::NewGate(m, cur.next())
+            }
+            _ => Op::Runtime(cur.next()),
+        });
+    }
+    ops
 }
 
 fn run_line(nums: &[u64]) -> Vec<u64> {
@@ -79,6 +339,7 @@ fn run_line(nums: &[u64]) -> Vec<u64> {
     let counts: Vec<usize> = counts.iter().map(|c| (*c).min(40) as usize).collect();
     let nm = counts.len();
 
+    let shared: Arc<Mutex<Option<State>>> = Arc::new(Mutex::new(None));
     let mut sim = Sim::new(());
     // move the process-global id counter: gen() returns the current value c, the next one is c + 1
     let c = ModuleId::gen().0;
@@ -86,7 +347,7 @@ fn run_line(nums: &[u64]) -> Vec<u64> {
         let _ = ModuleId::gen();
     }
     for i in 0..nm {
-        sim.node(format!("m{i}"), Fallback);
+        sim.node(format!("m{i}"), Node { idx: i, st: shared.clone() });
     }
     let mut gates: Vec<Vec<GateRef>> = Vec::new();
     for (i, c) in counts.iter().enumerate() {
@@ -96,136 +357,53 @@ fn run_line(nums: &[u64]) -> Vec<u64> {
     let mods: Vec<ModuleRef> = (0..nm)
         .map(|i| sim.get(&format!("m{i}").as_str().into()).expect("module"))
         .collect();
-    let world = World { ids: mods.iter().map(|m| m.id()).collect() };
-    let distinct = (0..nm).all(|i| (i + 1..nm).all(|j| world.ids[i] != world.ids[j]));
-    let nulls = world.ids.iter().filter(|i| **i == ModuleId::NULL).count();
-    let mut out: Vec<u64> = vec![10, nm as u64, distinct as u64, nulls as u64];
+    let ids: Vec<ModuleId> = mods.iter().map(|m| m.id()).collect();
+    let distinct = (0..nm).all(|i| (i + 1..nm).all(|j| ids[i] != ids[j]));
+    let nulls = ids.iter().filter(|i| **i == ModuleId::NULL).count();
+    let mut st = State {
+        nm,
+        ids,
+        mods,
+        used: counts.iter().map(|c| vec![false; *c]).collect(),
+        gates,
+        topo: Topology::default(),
+        ops: Vec::new(),
+        next: 0,
+        rt: false,
+        executor: 0,
+        late: 0,
+        out: vec![10, nm as u64, distinct as u64, nulls as u64],
+    };
 
-    // chains
-    let mut used: Vec<Vec<bool>> = counts.iter().map(|c| vec![false; *c]).collect();
-    if !cur.done() {
-        let nch = cur.next().min(64);
-        for _ in 0..nch {
-            let c = cur.take_lp();
-            if c.is_empty() {
-                continue;
-            }
-            let mode = c[0];
-            let chain: Vec<(usize, usize)> = c[1..]
-                .chunks(2)
-                .filter(|p| p.len() == 2)
-                .map(|p| (p[0].min(255) as usize, p[1].min(255) as usize))
-                .collect();
-            let exists = |g: &(usize, usize)| g.0 < nm && g.1 < counts[g.0];
-            let distinct = (0..chain.len()).all(|i| (i + 1..chain.len()).all(|j| chain[i] != chain[j]));
-            if chain.len() < 2 || !distinct || !chain.iter().all(|g| exists(g) && !used[g.0][g.1]) {
-                continue;
-            }
-            for g in &chain {
-                used[g.0][g.1] = true;
-            }
-            let mut hops: Vec<usize> = (0..chain.len() - 1).collect();
-            if mode & 1 == 1 {
-                hops.reverse();
-            }
-            for i in hops {
-                let a = gates[chain[i].0][chain[i].1].clone();
-                let b = gates[chain[i + 1].0][chain[i + 1].1].clone();
-                if mode & 2 == 2 {
-                    b.connect(a, None);
-                } else {
-                    a.connect(b, None);
-                }
-            }
-        }
+    // chains of the header
+    if cur.done() {
+        return st.out;
     }
+    let nch = cur.next().min(64);
+    for _ in 0..nch {
+        let c = cur.take_lp();
+        st.connect_chain(&c);
+    }
+    st.ops = parse_ops(&mut cur);
 
-    let mut topo: Topology<(), ()> = Topology::default();
-    while !cur.done() {
-        let tag = cur.peek().unwrap();
-        let need = match tag {
-            1 | 4 | 5 | 9 => 1,
-            2 | 3 | 6 | 7 | 8 => 2,
-            _ => break,
-        };
-        if cur.left() < need {
-            break;
-        }
-        cur.next();
-        match tag {
-            1 => {
-                topo = sim.globals().topology();
-                world.view(&topo, &mut out);
-            }
-            2 => {
-                let r = cur.next().min(255) as usize;
-                if r < nm {
-                    topo = Topology::spanned(mods[r].clone());
-                    world.view(&topo, &mut out);
-                } else {
-                    out.push(7);
-                }
-            }
-            3 => {
-                let s = cur.next().min(255);
-                let res = catch_unwind(AssertUnwindSafe(|| {
-                    let dj = topo.dijkstra(format!("m{s}").as_str());
-                    let mut v = vec![3, topo.nodes().len() as u64];
-                    for n in topo.nodes() {
-                        match dj.get(&n.module().path()) {
-                            Some(e) => {
-                                v.push(1);
-                                world.edge(&topo, e, &mut v);
-                            }
-                            None => v.push(0),
-                        }
-                    }
-                    v
-                }));
-                match res {
-                    Ok(v) => out.extend(v),
-                    Err(_) => out.extend([9, 1]),
-                }
-            }
-            4 => out.extend([4, topo.connected() as u64]),
-            5 => out.extend([5, topo.bidirectional() as u64]),
-            6 => {
-                let mask = cur.next();
-                topo.filter_nodes(|n| bit(mask, world.midx(&n.module())));
-                world.view(&topo, &mut out);
-            }
-            7 => {
-                let mask = cur.next();
-                let snapshot = topo.clone();
-                topo.filter_edges(|e| {
-                    let src = world.nidx(&snapshot, &e.from.module());
-                    let (_, sg) = world.gate(&e.from.gate());
-                    bit(mask, (src * 8 + sg) % 62)
-                });
-                world.view(&topo, &mut out);
-            }
-            8 => {
-                let m = cur.next().min(255);
-                let es: Vec<_> = topo.edges_for(format!("m{m}").as_str()).collect();
-                out.extend([6, es.len() as u64]);
-                for e in &es {
-                    world.edge(&topo, e, &mut out);
-                }
-            }
-            _ => {
-                let ms = cur.take_lp();
-                let mut sel: Vec<usize> = Vec::new();
-                for m in ms {
-                    let m = m.min(255) as usize;
-                    if m < nm && !sel.contains(&m) {
-                        sel.push(m);
-                    }
-                }
-                let list: Vec<ModuleRef> = sel.iter().map(|m| mods[*m].clone()).collect();
-                topo = Topology::from_modules(&list);
-                world.view(&topo, &mut out);
-            }
-        }
+    // build phase
+    while st.next < st.ops.len() && !st.rt {
+        exec(&mut st, Some(&mut sim));
     }
+    if !st.rt {
+        return st.out;
+    }
+    // run phase: the rest of the script is executed by a module of the running simulation
+    *shared.lock().unwrap() = Some(st);
+    let rt = Builder::seeded(1).quiet().build(sim.freeze());
+    let res = catch_unwind(AssertUnwindSafe(|| rt.run()));
+    // the runtime installs and removes its own panic hook
+    std::panic::set_hook(Box::new(|_| {}));
+    let st = shared.lock().unwrap().take().expect("state");
+    let mut out = st.out.clone();
+    if st.next < st.ops.len() || !matches!(res, Ok(Ok(_))) {
+        out.push(666);
+    }
+    drop(st);
     out
 }
